@@ -163,6 +163,62 @@ CHECKS = {
              "renderer and result serialiser in harness/cmd/sem. NULL operands are outside the property and not generated.",
         technique="TLA+ reference semantics (SqlSem.tla) with inputs enumerated by TLC (SqlSemGen.tla) and the oracle evaluated by TLC on real results (SqlSemJudge.tla)",
     ),
+    "C06": dict(
+        category="exploration",
+        text="SqlSem.tla JoinStep/FromFold define INNER/LEFT/RIGHT joins as bags (matching pairs plus NULL-padded unmatched outer rows), "
+             "left-deep chains, alias-or-name qualifiers, and MustFail for unqualified names found on both sides; SqlSemGen.tla enumerates 5547 "
+             "databases of three tables (empty tables, duplicate and missing keys), all 30 two/three-table join chains over the join kinds and 4 ON "
+             "shapes, self-joins under two aliases, select lists incl. ambiguous ones; cases run as SQL text on the real engine and TLC evaluates "
+             "ResultOK (bag equality, or a required error) on the results.",
+        design_ref="DESIGN.md 6 (C06)",
+        note="WHERE over columns an outer join may pad with NULL, and `<`-family ON comparisons on NULLs, are outside the property and not generated. "
+             "Sampled product of exhaustively enumerated components.",
+        technique="TLA+ reference semantics (SqlSem.tla) with inputs enumerated by TLC and the oracle evaluated by TLC on real results",
+    ),
+    "C07": dict(
+        category="exploration",
+        text="SqlSem.tla Groups/AggRowOK: one result row per distinct tuple of grouping values, COUNT(*) = members, COUNT(col) = non-NULL members, "
+             "AVG within 1/2 of sum/count (both neighbours on exact ties), all zeros for an empty input without GROUP BY; SqlSemGen.tla enumerates "
+             "702 tables whose grouping values collide when printed and concatenated ((1,23) vs (12,3)), NULL-bearing counted columns, 11 "
+             "list/group shapes (grouping column by name, qualifier, alias, any position, two columns comma separated) on top of 3 WHEREs; every "
+             "third case is re-run with the rows inserted in reverse order; TLC evaluates ResultOK on the real results.",
+        design_ref="DESIGN.md 6 (C07)",
+        note="Known finding avg-running-rounding (open; cannot be repaired because existing tests pin contradictory roundings) is recognised by a "
+             "signature evaluated on the case: groups and counts right and every AVG cell equal to the code's running rounded mean.",
+        technique="TLA+ reference semantics (SqlSem.tla) with inputs enumerated by TLC and the oracle evaluated by TLC on real results",
+    ),
+    "C12": dict(
+        category="exploration",
+        text="PageCodec.tla states the page store as a register map (Update/DropCache/Fetch; a fetch returns the node last stored at that "
+             "offset, stores elsewhere do not disturb it, every node is exactly one 4096-byte page). TLC enumerates node shapes from abstract "
+             "parameters (kind, 0..cap cells, value sizes 0/1/399/400, tombstone masks, insertion orders, cells left by a real split, sibling "
+             "flags, LSN up to 2^64-1, key magnitude) and store sequences over adjacent pages; every explored Fetch transition is executed "
+             "on a real fileStore (fresh fileStore = cold cache) and the decoded node's logical content and the file length are compared with the "
+             "register content; len(encode())==4096 and decode(encode(n))==n for every stored node; seeded random workloads over nodes of any "
+             "admissible size are recorded and validated by TLC against PageCodecTrace.tla.",
+        design_ref="DESIGN.md 6 (C12)",
+        note="Trusted: TLC, Json module, accessor zz_verif_codec.go (forwards to insertLeafCell/appendInternalCell/insertInternalCell/split/"
+             "encode/decode/update/fetch). Byte layout is not modelled, only exercised. Large values / cell lists compared by SHA-256. Scope: any "
+             "insertion order with all slots referenced, or ascending order + split (what ascending row ids can produce); a non-ascending node "
+             "that was split cannot be decoded (reported as NOTE).",
+        technique="TLA+ register-map spec model-checked with TLC; per-transition behaviour replay on fileStore; trace validation of random workloads",
+    ),
+    "C08": dict(
+        category="exploration",
+        text="Values.tla gives the accept/refuse rule (FieldDef.Validate) and the row-size arithmetic (Tuple.Encode, limit 400); ValueStore.tla "
+             "is the table as a value store (Put/UpdateAll -> ok|refused, Flush, EvictAll, Restart, Get) with the promise that every Get returns "
+             "the rows the history implies. TLC enumerates schemas of 1-3 (quick) / 1-4 (thorough) columns over the four types, rows from value "
+             "classes (32/64-bit boundaries, NULL, booleans, wrong types, strings sizing the row to 399/400/401 bytes, empty string) and "
+             "interleavings with the lifecycle steps; every explored Get transition is executed on the real engine with direct statement values "
+             "(EvaluateInsert/EvaluateUpdate) and, where expressible, as SQL text (Session.ExecQuery); accept/refuse and the rows read back "
+             "(EvaluateSelect) are compared bit for bit with what was supplied.",
+        design_ref="DESIGN.md 6 (C08)",
+        note="Trusted: TLC, Json module, accessor zz_verif_valstore.go (flusher off via hook H1, flushPages, cache replacement). Restart = Close + "
+             "InitStorage + USE in-process (crashes: C02-C04). UPDATE only without WHERE and only with uniform outcome over rows (partial failure: "
+             "C14). SQL text cannot express NULL literals, negative numbers, bare quote/newline/lone backslash in strings: those scenarios run on "
+             "the direct path only (counted in evidence.text_skipped).",
+        technique="TLA+ value-store spec model-checked with TLC; per-transition behaviour replay through the engine on two input paths",
+    ),
 }
 
 NOT_YET = "check not built yet (build in progress; see DESIGN.md section 6)"
